@@ -161,6 +161,18 @@ func Replay(path string) (int, error) {
 				Transactions json.RawMessage
 				Queries      json.RawMessage
 			}
+			Shared *struct {
+				InsertsFirst string
+				Ledgers      []struct {
+					Name       string
+					GoForm     bool
+					SchemaData struct {
+						Chart        json.RawMessage
+						Transactions json.RawMessage
+						Queries      json.RawMessage
+					}
+				}
+			}
 		}
 		if err := json.Unmarshal(rf.Replay, &rp); err != nil {
 			return 2, err
@@ -170,7 +182,35 @@ func Replay(path string) (int, error) {
 			return 2, err
 		}
 		r := ev.Start("C30", ev.LevelExploration, time.Minute, time.Minute)
-		c := &c30{r: r, st: &c30Stats{structOnlyDiffs: newCounter(), stages: newCounter()}, samples: ev.NewSamples(1)}
+		c := &c30{r: r, st: &c30Stats{structOnlyDiffs: newCounter(), stages: newCounter()}, samples: ev.NewSamples(1), shared: newSharedStats()}
+		if rp.Shared != nil {
+			// shared-bucket scenario: two ledgers of one bucket, one version label
+			if len(rp.Shared.Ledgers) != 2 || rp.Shared.Ledgers[0].Name != sharedLedgers[0] || rp.Shared.Ledgers[1].Name != sharedLedgers[1] {
+				return 2, fmt.Errorf("replay: a shared-bucket scenario names ledgers %v in this order", sharedLedgers)
+			}
+			addrs := Addresses([]string{"bank", "users", "007", "x7", "12", `"<&>"`, "a7b", ""}, 4)
+			var ss [2]*sharedSchema
+			for i, l := range rp.Shared.Ledgers {
+				lch, err := parseChart(string(l.SchemaData.Chart))
+				if err != nil {
+					return 2, err
+				}
+				if ss[i] = c.prepareShared(lch, string(l.SchemaData.Transactions), string(l.SchemaData.Queries), l.GoForm, addrs); ss[i] == nil {
+					return 2, fmt.Errorf("replay: schema of %s is not valid", l.Name)
+				}
+			}
+			first := 0
+			if rp.Shared.InsertsFirst == sharedLedgers[1] {
+				first = 1
+			}
+			boot2, err := lx.Boot(ctx, []lx.LedgerSpec{{Name: sharedLedgers[0]}, {Name: sharedLedgers[1]}})
+			if err != nil {
+				return 2, err
+			}
+			c.sharedScenario(ctx, boot2, ss, first, addrs)
+			return r.Finish(ev.Coverage{"evaluations": c.st.evals.Load(), "distinct_nontrivial": 1, "rule": "replay of " + path, "samples": []any{}, "exhaustive": false,
+				"reads_by_path": c.shared.reads.snapshot()}, nil), nil
+		}
 		boot, err := lx.Boot(ctx, []lx.LedgerSpec{{Name: "l1"}})
 		if err != nil {
 			return 2, err
